@@ -939,9 +939,9 @@ func TestVerifC18(t *testing.T) {
 	defer out.Close()
 	r := verifh.NewRand(verifh.Seed())
 	thorough := verifh.Tier() == "thorough"
-	nTimelines, nOut, nVerify, nDial := 260, 40, 500, 40
+	nTimelines, nOut, nVerify, nDial := 1000, 100, 2000, 80
 	if thorough {
-		nTimelines, nOut, nVerify, nDial = 6000, 400, 6000, 400
+		nTimelines, nOut, nVerify, nDial = 50000, 3000, 60000, 2000
 	}
 	sg := newC18Signers()
 
@@ -1007,8 +1007,12 @@ func TestVerifC18Replay(t *testing.T) {
 	}
 	defer out.Close()
 	c := verifh.ReplayCase()
+	if len(c) >= 3 && c[0] == 2 {
+		c18ReplayVerify(t, out, c)
+		return
+	}
 	if len(c) < 5 || (c[0] != 1 && c[0] != 4) {
-		fmt.Fprintln(os.Stderr, "c18 replay: only timelines are re-executed")
+		fmt.Fprintln(os.Stderr, "c18 replay: dial cases are not re-executed")
 		return
 	}
 	synctest.Test(t, func(t *testing.T) {
@@ -1072,6 +1076,85 @@ func TestVerifC18Replay(t *testing.T) {
 		}
 		m.Close()
 		synctest.Wait()
+		out.Case(line)
+	})
+}
+
+// re-execute a recorded verifier case: certificates are rebuilt from their
+// descriptors (algorithm class, validity relative to now), hash-list entries
+// that carried a certificate's id get that certificate's SHA-256 again
+func c18ReplayVerify(t *testing.T, out *verifh.Out, c []int64) {
+	sg := newC18Signers()
+	synctest.Test(t, func(t *testing.T) {
+		ids := newC18Ids()
+		n := int(c[1])
+		if len(c) < 2+6*n+2 {
+			t.Fatal("short case")
+		}
+		sub := int64(0)
+		if n > 0 && c[3] == 1 {
+			sub = ((-c[6])%1e9 + 1e9) % 1e9
+		}
+		c18AlignSecond()
+		if sub > 0 {
+			time.Sleep(time.Duration(sub))
+		}
+		now := time.Now()
+		var chain []c18Cert
+		byID := map[int64]c18Cert{}
+		for i := 0; i < n; i++ {
+			d := c[2+6*i : 8+6*i]
+			flavour := c18Garbage
+			switch {
+			case d[1] == 0:
+			case d[2] == 0 && d[3] == 0:
+				flavour = c18Ecdsa
+			case d[2] == 1 && d[3] == 1:
+				flavour = c18RsaPkcs1
+			case d[2] == 1 && d[3] == 2:
+				flavour = c18RsaPss
+			case d[2] == 1 && d[3] == 0:
+				flavour = c18RsaKeyEcSig
+			case d[2] == 0 && d[3] == 1:
+				flavour = c18EcKeyRsaSig
+			case d[2] == 0 && d[3] == 3:
+				flavour = c18Ed25519
+			}
+			crt := c18MakeCert(sg, flavour, now.Add(time.Duration(d[4])), now.Add(time.Duration(d[5])))
+			chain = append(chain, crt)
+			byID[d[0]] = crt
+		}
+		// ids in order of first appearance, as in the recorded case
+		for i := 0; i < n; i++ {
+			h := sha256.Sum256(chain[i].raw)
+			ids.id(h[:])
+		}
+		i := 2 + 6*n
+		k := int(c[i])
+		var hashes []multihash.DecodedMultihash
+		for j := 0; j < k; j++ {
+			code, id := uint64(c[i+1+2*j]), c[i+2+2*j]
+			var dg []byte
+			if crt, ok := byID[id]; ok {
+				h := sha256.Sum256(crt.raw)
+				dg = h[:]
+			} else {
+				h := sha256.Sum256([]byte(fmt.Sprintf("c18 replay digest %d", id)))
+				dg = h[:]
+			}
+			hashes = append(hashes, multihash.DecodedMultihash{Code: code, Length: len(dg), Digest: dg})
+		}
+		raws := make([][]byte, len(chain))
+		for j, crt := range chain {
+			raws[j] = crt.raw
+		}
+		res := c18ErrClass(verifyRawCerts(raws, hashes))
+		line := []int64{2, int64(n)}
+		for _, crt := range chain {
+			line = append(line, c18Describe(ids, crt, now)...)
+		}
+		line = append(line, c18Pairs(ids, hashes)...)
+		line = append(line, res)
 		out.Case(line)
 	})
 }
